@@ -32,6 +32,9 @@ CORPUS = [
     # time and the player must end the track (repository fix d90bcf9; it hung before)
     "seek 0 1,2,3,4,5,6 T0:8.100.0.0 T100:7.0.0.0,2.9.1.1",
     "seek 0 1,2,3,4,5,6 T0:8.100.0.0,13.3.0.0 T100:2.9.1.1,7.0.0.0,2.8.1.0",
+    # seek distances around and beyond 16 bits (a long loop of long notes with a running volume change)
+    "seek 0 65534,65535,65536,65537,66000,70000,99999,131071,131072,131073 T0:16.3.0.0,4.0.0.0,2.40.900.100,18.1.0.0,1.0.0.500,6.100.0.0,2.41.10.0",
+    "seek 0 65535,65536,65537,80000 T0:4.0.0.0,2.40.65535.0,18.1.0.0,2.41.1.0,6.3.0.0",
 ]
 
 
